@@ -84,6 +84,7 @@ impl Shiftable for Token {
     fn shift(self, offset: usize) -> Self {
         Self {
             range: self.range.shift(offset),
+            errors: self.errors.shift(offset),
             ..self
         }
     }
@@ -220,8 +221,11 @@ impl TokenType {
         match self {
             If | Else | While | Array | Of | Proc | Ref | Type | Var | Colon | Divide | Lt | Gt
             | Int(_) | Ident(_) | Hex(_) => 1,
+            // a comment at the end of the text is continued by appended text,
+            // and an unknown `'` can become the start of a char literal
+            Comment(_) | Unknown(_) => 1,
             LParen | RParen | LBracket | RBracket | LCurly | RCurly | Eq | Neq | Le | Ge
-            | Assign | Comma | Semic | Plus | Minus | Times | Comment(_) | Unknown(_) | Eof => 0,
+            | Assign | Comma | Semic | Plus | Minus | Times | Eof => 0,
             Char(_) => {
                 1 // this is a worst case look ahead.
             }
